@@ -80,6 +80,12 @@ Proof.
   - unfold missing_seats in H. inversion H. lia.
 Qed.
 
+(* header signatures: "k sealed hh" in the table world = some signature recovers to k over hh *)
+Definition sealed_t (t : tables) (k : key) (hh : N) : Prop :=
+  exists s, o_recover (table_oracles t) hh s = Some k.
+Lemma table_ecdsa_sound : forall t hh s k, o_recover (table_oracles t) hh s = Some k -> sealed_t t k hh.
+Proof. intros t hh s k H. exists s. exact H. Qed.
+
 (* ---- a small world ---------------------------------------------------------------- *)
 
 (* three validators of stake 10: two online senators and one online house
@@ -98,11 +104,16 @@ Definition w_tables : tables := mkT
    ((22, 10, 2, 20), Some 1%Z)]
   [((21, 2%Z), 31); ((25, 0%Z), 32)]
   [((10, true), 6); ((10, false), 5); ((2, true), 1); ((5, true), 3)]
-  [(1, [(1, w_pl); (2, w_pl)]); (2, [(1, w_pl)]); (3, [(3, w_pl)])].
+  [(1, [(1, w_pl); (2, w_pl)]); (2, [(1, w_pl)]); (3, [(3, w_pl)])]
+  (* header signatures over hash 0: signature k is the seal of key k *)
+  [((0, 1), 1); ((0, 2), 2)].
 Definition w_O := table_oracles w_tables.
-Definition w_seedH : header := mkH 92 5 5 1 (Some (mkCD 92 1 7 0 0 0 None 0 0 10)) None None.
-Definition w_parent : header := mkH 99 2 3 1 None None None.
-Definition w_hdr (cd : consdata) (uv : uconvals) : header := mkH 100 0 2 1 (Some cd) (Some uv) None.
+Definition w_seedH : header := mkH 92 5 5 1 (Some (mkCD 92 1 7 0 0 0 None 0 0 10)) None None 0.
+Definition w_parent : header := mkH 99 2 3 1 None None None 0.
+(* sealed by the signer of the consensus data *)
+Definition w_hdr (cd : consdata) (uv : uconvals) : header :=
+  mkH 100 0 2 1 (Some cd) (Some uv) None (match cd_signer cd with Some k => k | None => 0 end).
+
 
 (* honest: proposer key 1 with 2 seats, precommits of validators 0 and 1 (4 + 3 >= 6) *)
 Definition w_cd_ok : consdata := mkCD 100 1 8 11 31 2 (Some 1) 5 10 10.
@@ -114,6 +125,9 @@ Definition w_uv_thr : uconvals := mkUV 1 [mkVote 0 1 12] (Some 2) [] None.
 Definition w_uv_house : uconvals := mkUV 1 [mkVote 2 7 14] (Some 3) [] None.
 (* (c) validator 2 proposes with a credential that won no seat (protocol thresholds in the header) *)
 Definition w_cd_zero : consdata := mkCD 100 1 8 15 32 0 (Some 2) 5 10 10.
+
+(* (d) the honest consensus data and votes under a header signature of key 2 *)
+Definition w_hdr_unsealed : header := mkH 100 0 2 1 (Some w_cd_ok) (Some w_uv_ok) None 2.
 
 Lemma w_bls_sound : forall pubs pl s, o_bls w_O pubs pl s = Some true -> forall k, In k pubs -> signed_t w_tables k pl.
 Proof. apply table_bls_sound. Qed.
@@ -142,40 +156,49 @@ Lemma w_zero_accepted :
   /\ verify_side w_O fixed w_cp [] w_seedH w_lb w_seedH w_lb (w_hdr w_cd_zero w_uv_ok) (Some w_parent) = EInvalidCD.
 Proof. split; vm_compute; reflexivity. Qed.
 
+Lemma w_unsealed_accepted :
+  verify_side w_O asis w_cp [] w_seedH w_lb w_seedH w_lb w_hdr_unsealed (Some w_parent) = Accept
+  /\ verify_side w_O fixed w_cp [] w_seedH w_lb w_seedH w_lb w_hdr_unsealed (Some w_parent) = EInvalidSealer.
+Proof. split; vm_compute; reflexivity. Qed.
+
 (* ---- the full statement and its refutations --------------------------------------- *)
 
 (* C01 at full strength for a verifier variant: for all oracles meeting the
    cryptographic hypotheses and all inputs *)
 Definition C01_full_for (V : variant) : Prop :=
-  forall (O : oracles) (signed : blskey -> payload -> Prop),
+  forall (O : oracles) (signed : blskey -> payload -> Prop) (sealed : key -> N -> Prop),
     (forall pubs pl s, o_bls O pubs pl s = Some true -> forall k, In k pubs -> signed k pl) ->
     (forall h st t tot j, o_seats O h st t tot = Some j -> (0 <= j)%Z) ->
+    (forall hh s k, o_recover O hh s = Some k -> sealed k hh) ->
     forall cp vers seedH lb certH certlb h parent,
       verify_side O V cp vers seedH lb certH certlb h parent = Accept ->
-      C01_statement O signed cp vers seedH lb certH certlb h.
+      C01_statement O signed cp vers seedH lb certH certlb h /\ seal_ok O sealed h.
 
 Definition C01_full : Prop := C01_full_for asis.
 
 Theorem repaired_full : C01_full_for fixed.
 Proof.
-  intros O signed HB HS cp vers seedH lb certH certlb h parent HA.
-  apply side_accept in HA as (p & _ & _ & _ & HM). eapply fixed_accept; eauto.
+  intros O signed sealed HB HS HE cp vers seedH lb certH certlb h parent HA.
+  apply (side_accept O sealed HE) in HA as (p & _ & _ & _ & HM & HSeal).
+  split; [eapply fixed_accept; eauto|]. apply HSeal. reflexivity.
 Qed.
 
-Theorem asis_outside : forall (O : oracles) (signed : blskey -> payload -> Prop),
+Theorem asis_outside : forall (O : oracles) (signed : blskey -> payload -> Prop) (sealed : key -> N -> Prop),
     (forall pubs pl s, o_bls O pubs pl s = Some true -> forall k, In k pubs -> signed k pl) ->
     (forall h st t tot j, o_seats O h st t tot = Some j -> (0 <= j)%Z) ->
+    (forall hh s k, o_recover O hh s = Some k -> sealed k hh) ->
     forall cp vers seedH lb certH certlb h parent,
       verify_side O asis cp vers seedH lb certH certlb h parent = Accept ->
       finding_class O cp vers seedH lb certH certlb h = false ->
-      C01_statement O signed cp vers seedH lb certH certlb h.
+      C01_statement O signed cp vers seedH lb certH certlb h /\ seal_ok O sealed h.
 Proof.
-  intros O signed HB HS cp vers seedH lb certH certlb h parent HA HF.
-  apply side_accept in HA as (p & _ & _ & _ & HM). eapply asis_accept_outside; eauto.
+  intros O signed sealed HB HS HE cp vers seedH lb certH certlb h parent HA HF.
+  apply (side_accept O sealed HE) in HA as (p & _ & _ & _ & HM & _). eapply asis_accept_outside; eauto.
 Qed.
 
 Ltac instantiate_full H hdr :=
-  specialize (H w_O (signed_t w_tables) w_bls_sound w_seats_nonneg w_cp [] w_seedH w_lb w_seedH w_lb hdr (Some w_parent)).
+  specialize (H w_O (signed_t w_tables) (sealed_t w_tables) w_bls_sound w_seats_nonneg (table_ecdsa_sound w_tables)
+                w_cp [] w_seedH w_lb w_seedH w_lb hdr (Some w_parent)).
 
 (* an entitled element of a certificate over [listed] in the small world is
    determined by its vote *)
@@ -192,7 +215,7 @@ Qed.
 
 Theorem refuted_by_header_threshold : ~ C01_full.
 Proof.
-  intros H. instantiate_full H (w_hdr w_cd_thr w_uv_thr). specialize (H (proj1 w_thr_accepted)).
+  intros H. instantiate_full H (w_hdr w_cd_thr w_uv_thr). specialize (H (proj1 w_thr_accepted)). destruct H as [H _].
   destruct H as (seedCon & cd & uv & H1 & H2 & H3 & _ & (L & HQ & _) & _).
   cbn in H1, H2, H3. inversion H1; inversion H2; inversion H3; subst seedCon cd uv. clear H1 H2 H3.
   cbn [cd_seed w_cd_thr uv_index w_uv_thr uv_commit h_hash w_hdr cd_round cp_vt w_cp] in HQ.
@@ -207,7 +230,7 @@ Qed.
 
 Theorem refuted_by_non_member_voter : ~ C01_full.
 Proof.
-  intros H. instantiate_full H (w_hdr w_cd_ok w_uv_house). specialize (H (proj1 w_house_accepted)).
+  intros H. instantiate_full H (w_hdr w_cd_ok w_uv_house). specialize (H (proj1 w_house_accepted)). destruct H as [H _].
   destruct H as (seedCon & cd & uv & H1 & H2 & H3 & _ & (L & HQ & HM) & _).
   cbn in H1, H2, H3. inversion H1; inversion H2; inversion H3; subst seedCon cd uv. clear H1 H2 H3.
   cbn [cd_seed w_cd_ok uv_index w_uv_house uv_commit h_hash w_hdr cd_round cp_vt w_cp] in HQ.
@@ -221,11 +244,20 @@ Qed.
 
 Theorem refuted_by_zero_seat_proposer : ~ C01_full.
 Proof.
-  intros H. instantiate_full H (w_hdr w_cd_zero w_uv_ok). specialize (H (proj1 w_zero_accepted)).
+  intros H. instantiate_full H (w_hdr w_cd_zero w_uv_ok). specialize (H (proj1 w_zero_accepted)). destruct H as [H _].
   destruct H as (seedCon & cd & uv & H1 & H2 & H3 & HP & _).
   cbn in H1, H2, H3. inversion H1; inversion H2; inversion H3; subst seedCon cd uv. clear H1 H2 H3.
   destruct HP as (pk & val & h & j & P1 & P2 & _ & P4 & P5 & P6 & _).
   cbn in P1. inversion P1; subst pk. vm_compute in P2. inversion P2; subst val.
   vm_compute in P4. inversion P4; subst h.
   vm_compute in P5. inversion P5; subst j. discriminate.
+Qed.
+
+(* (d) the unrepaired side-chain verifier never looked at the header signature *)
+Theorem refuted_by_unsealed_header : ~ C01_full.
+Proof.
+  intros H. instantiate_full H w_hdr_unsealed. specialize (H (proj1 w_unsealed_accepted)). destruct H as [_ H].
+  destruct H as (cd & pk & H1 & H2 & H3 & _).
+  cbn in H1. inversion H1; subst cd. cbn in H2. inversion H2; subst pk.
+  vm_compute in H3. discriminate.
 Qed.
